@@ -61,9 +61,9 @@ def configs(tier):
                 nl = {'P3': [0, 2, 1], 'S3': [1, 0, 3, 2]}[g]
                 out.append(dict(family='tree', entry='SIR_pair_based_pure_IC', graph=g, I0=I0, R0=R0, weighted=False, order=4, nodelist=nl,
                                 tags=['tree', g, 'nodelist']))
-            if g in (('P3', 'S3') if tier == 'quick' else ('P3', 'S3', 'P4')) and len(I0) == 2 and not R0:
+            if g in ('P3', 'S3', 'P4') and len(I0) == 2 and not R0:
                 # several seeds around one susceptible node with unequal edge weights (each edge's own rate in the triple terms)
-                out.append(dict(family='tree', entry='SIR_pair_based_pure_IC', graph=g, I0=I0, R0=R0, weighted=True, order=3 if tier == 'quick' else 4,
+                out.append(dict(family='tree', entry='SIR_pair_based_pure_IC', graph=g, I0=I0, R0=R0, weighted=True, order=3 if (tier == 'quick' or g == 'P4') else 4,
                                 tags=['tree', g, 'weighted', 'multi-seed']))
     out.append(dict(family='triangle', entry='SIR_pair_based_pure_IC', graph='K3', I0=[0], R0=[], weighted=False, order=5, tags=['triangle']))
     for g in ['paw', 'irr5']:
